@@ -8,6 +8,7 @@
            what the implementation answered).
    Everything property-relevant is in the extracted code; this file only parses and prints. *)
 open Model
+type line = n * byte list
 
 (* ---------- conversions ---------- *)
 let byte_of_int (i:int) : byte = Bytetab.tab.(i land 255)
@@ -193,18 +194,20 @@ let () =
   let jprint s = match joc with Some oc -> output_string oc (s ^ "\n") | None -> () in
   let judging () = joc <> None && impl <> None in
   (* compare the expected files with the snapshot of the implementation *)
+  let ignored : (string, unit) Hashtbl.t = Hashtbl.create 8 in
   let check_files (snap:(string * (int * string)) list) : string option =
     let exp = List.map (fun (k, c) -> (string_of_bytes k, (List.length c, fnv c))) (judge_files !js) in
     let is_part k = let n = String.length k in n >= 5 && String.sub k (n-5) 5 = ".part" in
-    let exp = List.filter (fun (k, _) -> not (is_part k)) exp and snap = List.filter (fun (k, _) -> not (is_part k)) snap in
+    let skip k = is_part k || Hashtbl.mem ignored k in
+    let exp = List.filter (fun (k, _) -> not (skip k)) exp and snap = List.filter (fun (k, _) -> not (skip k)) snap in
     let bad = ref None in
     List.iter (fun (k, (ln, h)) -> if !bad = None then
       match List.assoc_opt k snap with
       | Some (ln', h') when ln = ln' && h = h' -> ()
-      | Some (ln', h') -> bad := Some (Printf.sprintf "file %s expected=%d:%s got=%d:%s" k ln h ln' h')
-      | None -> bad := Some (Printf.sprintf "file %s expected=%d:%s got=absent" k ln h)) exp;
+      | Some (ln', h') -> Hashtbl.replace ignored k (); bad := Some (Printf.sprintf "file %s expected=%d:%s got=%d:%s" k ln h ln' h')
+      | None -> Hashtbl.replace ignored k (); bad := Some (Printf.sprintf "file %s expected=%d:%s got=absent" k ln h)) exp;
     List.iter (fun (k, (ln, h)) -> if !bad = None && List.assoc_opt k exp = None then
-      bad := Some (Printf.sprintf "file %s expected=absent got=%d:%s" k ln h)) snap;
+      (Hashtbl.replace ignored k (); bad := Some (Printf.sprintf "file %s expected=absent got=%d:%s" k ln h))) snap;
     !bad in
   (* one abstract step; r = what the implementation answered *)
   let jstep (o:op) (r:out) (desc:string) : unit =
@@ -221,8 +224,10 @@ let () =
     end in
   let jfiles (snap:(string * (int * string)) list) : unit =
     if judging () && not !jdead then
+      (* a file that differs is reported once and left out of later comparisons; judging goes on
+         (the abstract state is still what the properties prescribe) *)
       match check_files snap with
-      | Some msg -> jprint (Printf.sprintf "J %d FAIL %s" !opidx msg); jdead := true
+      | Some msg -> jprint (Printf.sprintf "J %d FAIL %s" !opidx msg)
       | None -> jprint (Printf.sprintf "J %d ok" !opidx) in
   let payload_size_model () : int = match step' !w OPayloadSize with
     | (_, RNum v) -> (match int64_of_n v with Some x -> Int64.to_int x | None -> 0)
@@ -244,7 +249,7 @@ let () =
       incr opidx;
       match toks with
       | ["history"; id] ->
-          w := init_world; js := judge_init; jdead := false; opidx := 0;
+          w := init_world; js := judge_init; jdead := false; opidx := 0; Hashtbl.reset ignored;
           if run_model then Buffer.add_string out ("H " ^ id ^ "\n"); jprint ("H " ^ id)
       | "new" :: name :: rest ->
           simple (ONew (bytes_of_string name, n_of_string (kv rest "p"), bytes_of_hex (kv rest "hdr"),
